@@ -1,4 +1,5 @@
 import FrappyModel.Small.Persist
+import FrappyModel.Small.PersistPlace
 /-
 C17 — Persistent parameters: crash-atomic, exact round trip, retried after failure.
 
@@ -157,5 +158,48 @@ def judgeReloadRestores {N V : Type} [DecidableEq V] (parse : Bytes → Option (
 /-- monitor: names of the persistent parameters to which a reload gave a value they never had in this run -/
 def judgeReloadFromThisRun {V : Type} [DecidableEq V] (obs : List (ReloadObs V)) : List String :=
   (obs.filter (fun o => o.persistent && !decide (o.actual ∈ o.held))).map (·.name)
+
+/-! ## where the file lives: "a missing … file never prevents start-up", "loading after saving restores …"
+
+The statement speaks of *the* persistent-parameter file.  Which file that is follows from the equipment id and the
+module name (`persistentFile`), and the directories on the way to it may not exist - at the first start (an equipment id
+with a `/` puts the file into a subdirectory nobody has created), or no longer (the tree is removed while the server
+runs).  A directory that is missing is a file that is missing: it must not prevent start-up, and a save that meets no I/O
+failure must leave its snapshot in place all the same. -/
+
+/-- what can be seen of one call (start-up, or an action of a running module) that met no I/O failure: did it raise,
+how many file operations it performed, and every regular file below the log directory afterwards, with its content -/
+structure PlaceObs where
+  raised : Bool
+  ops : Nat
+  tree : List (Path × Bytes)
+
+/-- the snapshot `new` is in place: complete, at the path derived from equipment id and module name, and nothing else
+is in the tree -/
+def InPlace (eq mod : String) (new : Bytes) (tree : List (Path × Bytes)) : Prop :=
+  tree.lookup (persistentFile eq mod) = some new ∧ ∀ e ∈ tree, e.1 = persistentFile eq mod
+
+instance (eq mod : String) (new : Bytes) (tree : List (Path × Bytes)) : Decidable (InPlace eq mod new tree) := by
+  unfold InPlace; infer_instance
+
+/-- a call that meets no I/O failure does not fail, whatever directories exist; and if it touched the file system at
+all (it had something to save) the new snapshot is in place afterwards.  (A call that wrongly touches nothing is the
+business of `Restores`: the file then does not give back the values.) -/
+def SavedWherever (eq mod : String) (new : Bytes) (o : PlaceObs) : Prop :=
+  o.raised = false ∧ (0 < o.ops → InPlace eq mod new o.tree)
+
+instance (eq mod : String) (new : Bytes) (o : PlaceObs) : Decidable (SavedWherever eq mod new o) := by
+  unfold SavedWherever; infer_instance
+
+/-- monitor -/
+def savedWhereverB (eq mod : String) (new : Bytes) (o : PlaceObs) : Bool := decide (SavedWherever eq mod new o)
+
+/-- the listing of a model file system over the paths `ps` (what the harness records of the real tree) -/
+def treeOf (fs : FS Path) (ps : List Path) : List (Path × Bytes) :=
+  ps.filterMap (fun p => (fs p).map (fun b => (p, b)))
+
+/-- monitor, for the report: the files of the tree that are not the persistent file -/
+def strayFiles (eq mod : String) (tree : List (Path × Bytes)) : List Path :=
+  (tree.filter (fun e => !decide (e.1 = persistentFile eq mod))).map (·.1)
 
 end Frappy.Spec.C17
